@@ -1,7 +1,7 @@
 (* Shared engine cases: the model evaluated on what the real code ran on, and the property
    predicates (C01 C04 C06 C07 C13 C20) evaluated on what the real code returned. *)
 From Coq Require Import List String ZArith NArith Bool Floats.
-From WTF Require Import Model.Tfidf Model.Fuzzy Model.Nlp Model.Validate Model.Text Model.Platform Model.Engine Check.Render Check.EngineTypes.
+From WTF Require Import Model.Tfidf Model.Fuzzy Model.Nlp Model.Validate Model.Text Model.Platform Model.Engine Model.Legacy Check.Render Check.EngineTypes.
 Import ListNotations.
 Open Scope string_scope.
 
@@ -17,7 +17,9 @@ Record ecase := {
   k_nlp_sig : list bytes; k_nlp_sig2 : list bytes;  (* the whole analysis, flattened, from two analyses of the same text *)
   k_doc_toks : list (list bytes); k_q_toks : list bytes; k_logt : list float;  (* inputs of the TF-IDF model *)
   k_tabs : tables; k_words : list bytes; k_qlower : bytes;                      (* inputs of the NLP model (Model/Nlp.v) *)
-  k_nlp_intent : intent; k_nlp_hints : list bytes                               (* observed: intent and command hints *)
+  k_nlp_intent : intent; k_nlp_hints : list bytes;                              (* observed: intent and command hints *)
+  k_legacy : list float;      (* calculateScore per entry for the query's word list and the context boosts: oracle of Model/Legacy.v *)
+  k_legacy_words : list bytes (* strings.Fields(strings.ToLower(query)) as the code computed it *)
 }.
 
 Definition env_of (c : ecase) : env :=
@@ -87,11 +89,23 @@ Definition fuzzy_agrees (c : ecase) : bool :=
       | None => false
       end) (k_cmds c) (k_fuzzy c).
 
+(* the scan search behind `wtf pipeline` (the "legacy_pipeline" run) against Model/Legacy.v *)
+Definition legacy_agrees (c : ecase) : bool :=
+  match extra c "legacy_pipeline" with
+  | Some obs =>
+      Nat.eqb (List.length (k_legacy c)) (List.length (k_cmds c)) &&
+      (negb (Fuzzy.ascii (k_q c)) || list_eqb bytes_eqb (legacy_words (k_q c)) (k_legacy_words c)) &&
+      results_eqb (to_eres (pipeline_search (fun i => nth i (k_legacy c) nan) (k_cmds c)
+                                            (o_pipeline_only (k_opts c)) (o_pipeline_boost (k_opts c)) (o_limit (k_opts c)))) obs
+  | None => true
+  end.
+
 (* model vs. implementation on the main run and on every paired run *)
 Definition mismatch (c : ecase) : option string :=
   if negb (nlp_agrees c) then Some "nlp_analysis" else
   if negb (tfidf_agrees c) then Some "tfidf" else
   if negb (fuzzy_agrees c) then Some "fuzzy_matcher" else
+  if negb (legacy_agrees c) then Some "legacy_pipeline" else
   let o := k_opts c in
   let chk (name : string) (oo : options) (obs : option (list eres)) :=
       match obs with
